@@ -485,4 +485,28 @@ theorem pyIndex_natCast (T i j : Nat) (h : pyIndex T (i : Int) = .ok j) : j = i 
     · next hneg => omega
     · exact absurd h (by simp)
 
+/-- one subregion on arrays, without any invariant: entry (t, v, c) of the result is entry (t, v + start, c) -/
+theorem subSlices_data (im im' : ImgA) (sls : List PySlice) (h : im.subSlices sls = .ok im')
+    (hs : im.md.cs.shape.length = im.md.cs.dim.toNat) (t : Nat) (v : List Nat) (hv : v.length = im.md.cs.dim.toNat) (c : Nat) :
+    im'.data t v c = im.data t (List.zipWith (· + ·) v ((List.zipWith sliceIdx im.md.cs.shape sls).map (·.1))) c := by
+  unfold ImgA.subSlices at h
+  simp only [bind, Except.bind, pure, Except.pure] at h
+  split at h
+  · exact absurd h (by simp)
+  · next m hm =>
+    injection h with h; subst h
+    obtain ⟨hl, _, _, hser, hsc⟩ := subSlices_fields im.md m sls hm
+    have hlen : ((List.zipWith sliceIdx im.md.cs.shape sls).map (·.1)).length = v.length := by
+      rw [List.length_map, List.length_zipWith, hs, hl, hv]; simp
+    unfold ImgA.data ImgA.rawIdx NArr.sliceLead
+    simp only [hser, hsc, List.append_assoc]
+    rw [addLead_append _ _ _ hlen]
+
+theorem sliceIdx_nat (N a b : Nat) : sliceIdx N (some (a : Int), some (b : Int)) = (min a N, min b N) := by
+  unfold sliceIdx
+  simp only [Option.map_some, Option.getD_some]
+  have h1 : ¬ ((a : Int) < 0) := by omega
+  have h2 : ¬ ((b : Int) < 0) := by omega
+  simp only [h1, h2, if_false, Int.toNat_natCast]
+
 end Darsia.Im
